@@ -32,7 +32,7 @@ import abc
 from typing import Tuple, TYPE_CHECKING, Dict
 
 import deep.logging
-from deep.api.tracepoint.eventsnapshot import WATCH_SOURCE_CAPTURE
+from deep.api.tracepoint.eventsnapshot import WATCH_SOURCE_CAPTURE, WATCH_SOURCE_LOG
 from deep.logging import logging
 from deep.api.tracepoint import WatchResult, Variable
 from deep.processor.variable_set_processor import VariableSetProcessor, VariableCacheProvider, \
@@ -88,7 +88,8 @@ class ActionContext(abc.ABC):
 
         try:
             result = self.trigger_context.evaluate_expression(watch)
-            variable_id, log_str = var_processor.process_variable(watch, result)
+            # only a log message uses the text of the value
+            variable_id, log_str = var_processor.process_variable(watch, result, as_text=source == WATCH_SOURCE_LOG)
             if variable_id.vid is None:
                 # the variable budget of this action is already used up, so the value was not collected
                 return WatchResult(source, watch, None, "variable limit reached"), {}, log_str
